@@ -20,6 +20,13 @@ struct Sock {
 	uint32_t              lossy_until = 0; // gaps tolerated for tags <= this
 	std::set<uint32_t>    limbo;           // skipped inside a loss window: may still sit in the old peer's receive queue
 	int                   maxlive     = 0;
+	// blocked (asynchronous) sends: a message counts as accepted, at the tail of the send order, when its aio completes
+	struct Pend {
+		nng_aio *aio;
+		uint32_t tag;
+		int      done;
+	};
+	std::vector<Pend *> pend;
 };
 
 struct World {
@@ -32,8 +39,8 @@ static World *gW;
 static void
 mark_lossy(Sock &x)
 {
-	if (!x.outbox.empty())
-		x.lossy_until = std::max(x.lossy_until, x.outbox.back());
+	if (!x.outbox.empty() || !x.pend.empty())
+		x.lossy_until = std::max(x.lossy_until, ((uint32_t) (&x - gW->S) << 24) | x.seq); // every tag issued so far
 }
 
 static void
@@ -52,6 +59,41 @@ pipe_cb(nng_pipe p, nng_pipe_ev ev, void *arg)
 		// pipe which the peer may still refuse)
 		s->live.erase((uint32_t) nng_pipe_id(p));
 		mark_lossy(*s);
+	}
+}
+
+static void
+pend_cb(void *arg)
+{
+	((Sock::Pend *) arg)->done++;
+}
+
+// completed blocked sends join the send order now; failed ones give their message back
+static void
+harvest(World &W)
+{
+	for (int x = 0; x < 3; x++) {
+		Sock &X = W.S[x];
+		for (size_t i = 0; i < X.pend.size();) {
+			Sock::Pend *P = X.pend[i];
+			if (!P->done) {
+				i++;
+				continue;
+			}
+			VR_CHECK(P->done == 1, "C08:send-completed-twice", "blocked send %x completed %d times", P->tag, P->done);
+			int rv = nng_aio_result(P->aio);
+			if (rv == 0) {
+				X.outbox.push_back(P->tag);
+				vr_tag("blocked_send_released");
+			} else {
+				nng_msg *m = nng_aio_get_msg(P->aio);
+				VR_CHECK(m != nullptr && at_is_live(m), "C08:failed-send-lost-message", "blocked send %x failed with %d but its message is gone", P->tag, rv);
+				nng_msg_free(m);
+			}
+			nng_aio_free(P->aio);
+			delete P;
+			X.pend.erase(X.pend.begin() + (long) i);
+		}
 	}
 }
 
@@ -189,7 +231,23 @@ exec_inproc(const vcase *vc, World &W)
 				VR_CHECK((long) X.outbox.size() <= bound, "C08:unbounded-acceptance",
 				    "socket %d has %zu accepted-but-undelivered messages (SENDBUF %d, peer RECVBUF %d): discarding instead of blocking", x,
 				    X.outbox.size(), X.sbuf, y >= 0 ? W.S[y].rbuf : 0);
+		} else if (n == "asend") {
+			// a sender that blocks: the aio stays pending until there is room (or a peer)
+			if (X.pend.size() >= 2)
+				continue;
+			uint32_t tag = ((uint32_t) x << 24) | ++X.seq;
+			nng_msg *m   = h_msg(tag, (size_t) (a1 & 31));
+			auto    *P   = new Sock::Pend{nullptr, tag, 0};
+			H_OK(nng_aio_alloc(&P->aio, pend_cb, P));
+			nng_aio_set_timeout(P->aio, NNG_DURATION_INFINITE);
+			nng_aio_set_msg(P->aio, m);
+			X.pend.push_back(P);
+			nng_socket_send(X.s, P->aio);
+			vs_settle();
+			if (!P->done)
+				vr_tag("sender_blocked");
 		} else if (n == "recv") {
+			harvest(W);
 			nng_msg *m  = nullptr;
 			int      rv = nng_recvmsg(X.s, &m, NNG_FLAG_NONBLOCK);
 			VR_CHECK(rv == 0 || rv == NNG_EAGAIN, "C08:recv-code", "non-blocking receive -> %d", rv);
@@ -228,6 +286,7 @@ exec_inproc(const vcase *vc, World &W)
 			vs_sleep(a1 > 0 ? a1 : 1);
 			vs_settle();
 		}
+		harvest(W);
 		audit(W, o->name);
 	}
 	// final drain
@@ -235,10 +294,12 @@ exec_inproc(const vcase *vc, World &W)
 		bool any = false;
 		for (int x = 0; x < 3; x++) {
 			nng_msg *m;
+			harvest(W);
 			while (nng_recvmsg(W.S[x].s, &m, NNG_FLAG_NONBLOCK) == 0) {
 				on_receive(W, x, m);
 				any = true;
 				vs_settle();
+				harvest(W);
 			}
 		}
 		if (!any)
@@ -253,6 +314,14 @@ exec_inproc(const vcase *vc, World &W)
 	}
 	if (refused_seen)
 		vr_tag("exclusive_checked");
+	for (int x = 0; x < 3; x++)
+		for (auto *P : W.S[x].pend)
+			nng_aio_cancel(P->aio);
+	vs_settle();
+	for (int x = 0; x < 3; x++)
+		for (auto *P : W.S[x].pend)
+			nng_aio_wait(P->aio);
+	harvest(W);
 	for (int i = 2; i >= 0; i--)
 		nng_socket_close(W.S[i].s);
 	return 0;
@@ -422,7 +491,7 @@ genOpInproc()
 	return gen::exec([]() {
 		std::ostringstream o;
 		int x = *gen::weightedElement<int>({{4, 0}, {4, 1}, {2, 2}});
-		int k = *gen::weightedElement<int>({{12, 0}, {10, 1}, {3, 2}, {2, 3}, {2, 4}, {2, 5}, {1, 6}});
+		int k = *gen::weightedElement<int>({{12, 0}, {10, 1}, {3, 2}, {2, 3}, {2, 4}, {2, 5}, {1, 6}, {4, 7}});
 		switch (k) {
 		case 0: o << "send " << x << " " << *pbt::range<int>(0, 31); break;
 		case 1: o << "recv " << x; break;
@@ -431,6 +500,7 @@ genOpInproc()
 		case 4: o << "sbuf " << x << " " << *pbt::range<int>(0, 4); break;
 		case 5: o << "rbuf " << x << " " << *pbt::range<int>(0, 4); break;
 		case 6: o << "wait 0 " << *gen::element(1, 15, 40); break;
+		case 7: o << "asend " << x << " " << *pbt::range<int>(0, 31); break;
 		}
 		return o.str();
 	});
